@@ -260,7 +260,7 @@ package nbhttp
 //@ ghost local Parser.gUp : Bool
 //@ ghost local Parser.gRow : (Array Int Int)
 //@ pred ParseCache(p *Parser, offset int, n int, cache0 *[]byte, n0 int, rl0 int) := (cache0 != nil ==> p.bytesCached == cache0 || !liveP[cache0]) && (offset == 0 ==> p.bytesCached == nil && n == n0) && (offset > 0 ==> p.bytesCached != nil && len(*p.bytesCached) == n && (rl0 > 0 ==> n <= rl0)) && p.Engine.ReadLimit == rl0
-//@ pred ParserInv(p *Parser) := p.Processor != nil && p.Engine != nil && (p.state != stateClose && p.bytesCached != nil ==> liveP[p.bytesCached] && p.bytesCached <= top && len(*p.bytesCached) > 0) && (p.state == stateBodyContentLength ==> p.contentLength > 0) && (p.state == stateBodyChunkData ==> p.chunkSize > 0)
+//@ pred ParserInv(p *Parser) := p.Processor != nil && p.Engine != nil && p.status == "" && (p.state != stateClose && p.bytesCached != nil ==> liveP[p.bytesCached] && p.bytesCached <= top && len(*p.bytesCached) > 0) && (p.state == stateBodyContentLength ==> p.contentLength > 0) && (p.state == stateBodyChunkData ==> p.chunkSize > 0)
 
 //@ pred ParserRest(p *Parser) := (p.state == stateBodyContentLength ==> buflen(p.bytesCached) < p.contentLength) && (p.state == stateBodyChunkData ==> buflen(p.bytesCached) < p.chunkSize)
 //@ func (*Parser).nextState
@@ -309,7 +309,7 @@ package nbhttp
 //@   inline
 
 //@ func (*Parser).Parse
-//@   props C08 C11
+//@   props C06 C07 C08 C11
 //@   safety index slice nil div assert panic make
 //@   requires ParserInv(p) && ParserRest(p)
 //@   ensures rest: result == nil && !p.gUp ==> ParserRest(p)                                                            // prop C08
@@ -328,6 +328,8 @@ package nbhttp
 //@   ensures suffix1b: result == nil && !p.gUp && p.bytesCached != nil && old(p.bytesCached) != nil && len(*p.bytesCached) < old(buflen(p.bytesCached)) + old(len(data)) ==> (forall q int {mem(*p.bytesCached, q)} :: off(*p.bytesCached) <= q && q < off(*p.bytesCached) + len(*p.bytesCached) ==> mem(*p.bytesCached, q) == ite(old(buflen(p.bytesCached)) + old(len(data)) - len(*p.bytesCached) + q - off(*p.bytesCached) < old(buflen(p.bytesCached)), memold(*p.bytesCached, old(off(*p.bytesCached)) + old(buflen(p.bytesCached)) + old(len(data)) - len(*p.bytesCached) + q - off(*p.bytesCached)), memold(data, old(off(data)) + old(len(data)) - len(*p.bytesCached) + q - off(*p.bytesCached))))   // prop C06
 //@   ensures closed: old(p.state) == stateClose ==> result == net.ErrClosed && p.bytesCached == old(p.bytesCached)       // prop C08
 //@   assigns everything
+//@   note client side: the reason phrase handed to the processor is everything between the status code and CR (C07)
+//@   at before:OnStatus#1 assert fulltext: len(arg_status) == i - start   // prop C07
 //@   note the upgraded protocol's parser does not reach into the HTTP parser that feeds it
 //@   at entry ghost { p.gUp = false; p.gRow = bytes_row(base(data)) }
 //@   at call:Append#1 ghost { p.gRow = bytes_row(base(*result)) }
